@@ -24,52 +24,6 @@ func nilLit(a *FnA, v ssa.Value) string {
 	return "eq(" + min2(d, "nil") + "," + max2(d, "nil") + ")"
 }
 
-func ruleNilGuard(c *Ctx) []Obligation {
-	o := c.newObs("P-NILGUARD")
-	g := c.CG()
-	for _, f := range c.allFuncs(c.Jen) {
-		a := c.FA(f)
-		seq := map[string]int{}
-		for _, ci := range a.calls() {
-			cc := ci.Common()
-			if !cc.IsInvoke() || !isCodeType(c, cc.Value.Type()) {
-				continue
-			}
-			v := cc.Value
-			// drawn from a collection? (element load, map iteration, lookup)
-			if !fromCollection(v) {
-				continue
-			}
-			rs := g.roots(f, v)
-			user := false
-			for r := range rs {
-				if r.Kind != "fresh" {
-					user = true
-				}
-			}
-			if a.localContainer(v) {
-				user = false
-			}
-			shape := collectionShape(a, v)
-			seq[cc.Method.Name()+shape]++
-			construct := fmt.Sprintf("%s on %s", cc.Method.Name(), shape)
-			if n := seq[cc.Method.Name()+shape]; n > 1 {
-				construct += fmt.Sprintf(" #%d", n)
-			}
-			if !user {
-				// function-local container: must only be filled with values that were nil-checked
-				ok, why := localContainerGuarded(c, a, v)
-				o.req(ok, fname(f), construct, ci.Pos(), "element of a function-local container: %s", why)
-				continue
-			}
-			facts := a.FactsOf(ci)
-			o.req(facts.Has(nilLit(a, v), false), fname(f), construct, ci.Pos(),
-				"the README promises nil items behave like Null(); this call dereferences %s without a dominating nil test (facts: %s)", a.Desc(v), facts)
-		}
-	}
-	return o.list
-}
-
 // typedNilAsserts: typed-nil pointers obtained from a Code by type assertion must be nil-checked
 // before a field is read through them.
 func (c *Ctx) typedNilAsserts(o *obs) {
@@ -112,70 +66,6 @@ func (c *Ctx) typedNilAsserts(o *obs) {
 	}
 }
 
-// localContainer: v is read from a slice / array that lives in a local variable of this function
-// (possibly through a spilled copy of the element).
-func (a *FnA) localContainer(v ssa.Value) bool {
-	for depth := 0; depth < 6; depth++ {
-		u, ok := v.(*ssa.UnOp)
-		if !ok || u.Op != token.MUL {
-			return false
-		}
-		addr := u.X
-	chain:
-		for {
-			switch x := addr.(type) {
-			case *ssa.FieldAddr:
-				addr = x.X
-			case *ssa.IndexAddr:
-				sv := x.X
-				if l, ok := sv.(*ssa.UnOp); ok && l.Op == token.MUL {
-					if _, isAlloc := l.X.(*ssa.Alloc); isAlloc {
-						return true
-					}
-				}
-				if _, isAlloc := sv.(*ssa.Alloc); isAlloc {
-					return true
-				}
-				return false
-			case *ssa.Alloc:
-				st := a.singleStore(x)
-				if st == nil {
-					return false
-				}
-				v = st
-				break chain
-			default:
-				return false
-			}
-		}
-	}
-	return false
-}
-
-func fromCollection(v ssa.Value) bool {
-	switch x := v.(type) {
-	case *ssa.UnOp:
-		if x.Op != token.MUL {
-			return false
-		}
-		switch ad := x.X.(type) {
-		case *ssa.IndexAddr:
-			return true
-		case *ssa.FieldAddr:
-			// field of an element struct
-			_ = ad
-			return true
-		}
-		return false
-	case *ssa.Extract:
-		_, isNext := x.Tuple.(*ssa.Next)
-		return isNext
-	case *ssa.Lookup, *ssa.Index, *ssa.Field:
-		return true
-	}
-	return false
-}
-
 // collectionShape: descriptor with index expressions elided, for stable keys.
 func collectionShape(a *FnA, v ssa.Value) string {
 	d := a.Desc(v)
@@ -205,65 +95,6 @@ func collectionShape(a *FnA, v ssa.Value) string {
 		s = s[:i]
 	}
 	return s
-}
-
-// localContainerGuarded: v is loaded from a function-local slice; every value appended / stored
-// into that container (in this function) must carry the fact "≠ nil".
-func localContainerGuarded(c *Ctx, a *FnA, v ssa.Value) (bool, string) {
-	// find the field of the element struct being read, and the stores of composite elements
-	u, ok := v.(*ssa.UnOp)
-	var field string
-	if ok {
-		if fa, ok := u.X.(*ssa.FieldAddr); ok {
-			field = fieldName(fa.X.Type(), fa.Field)
-		}
-	}
-	if fl, ok := v.(*ssa.Field); ok {
-		field = fieldName(fl.X.Type(), fl.Field)
-	}
-	if field == "" {
-		return false, "unrecognised local container access " + a.Desc(v)
-	}
-	// every struct literal in the function whose type has that field and holds a Code there
-	n := 0
-	for _, b := range a.fn.Blocks {
-		for _, in := range b.Instrs {
-			al, ok := in.(*ssa.Alloc)
-			if !ok {
-				continue
-			}
-			st, ok := al.Type().Underlying().(*types.Pointer).Elem().Underlying().(*types.Struct)
-			if !ok {
-				continue
-			}
-			has := false
-			for i := 0; i < st.NumFields(); i++ {
-				if st.Field(i).Name() == field && isCodeType(c, st.Field(i).Type()) {
-					has = true
-				}
-			}
-			if !has {
-				continue
-			}
-			fs, ok := allocFields(al)
-			if !ok {
-				continue
-			}
-			val, set := fs[field]
-			if !set {
-				continue
-			}
-			n++
-			facts := a.FactsAt(al.Block())
-			if !facts.Has(nilLit(a, val), false) {
-				return false, fmt.Sprintf("container element built at %s stores %s into field %s without a nil test (facts %s)", c.pos(al.Pos()), a.Desc(val), field, facts)
-			}
-		}
-	}
-	if n == 0 {
-		return false, "no construction site of the container element found"
-	}
-	return true, fmt.Sprintf("%d construction site(s) of the element, each under the fact value ≠ nil", n)
 }
 
 // ---------------------------------------------------------------------------------------------
